@@ -168,7 +168,8 @@ struct OpSlot {
     int64_t fired[F_KINDS] = {0};
     std::vector<HeapViolation> heapV;
     const SharedInput *shared = nullptr;
-    bool roundChanged = false;
+    bool roundChanged = false;  // any per-thread ambient state (FP control, signal mask/dispositions) left changed
+    std::string ambWhat;
 };
 
 struct C18Outcome {
@@ -418,13 +419,17 @@ void C18Exec::concurrent(const SchedConfig &scIn, C18Outcome &out) {
             OpHeapCtx &c = ctxs[(size_t)t];
             c.begin(t, ++g_opIdCounter, fillSeedOf(cs.caseSeed, t, (int)i), op.fault);
             heapBind(&c);
-            int round0 = fegetround();
+            Ambient amb0 = ambientGet(false);
             schedSetOpBudget(s.budget);
             s.got = execOp(SIM, op, eo);
             schedSetOpBudget(0);
             heapBind(nullptr);
-            s.roundChanged = fegetround() != round0;
-            if (s.roundChanged) fesetround(round0);
+            Ambient amb1 = ambientGet(false);
+            s.roundChanged = !(amb1 == amb0) && s.got.status == CALL_RETURNED;
+            if (!(amb1 == amb0)) {
+                s.ambWhat = "before " + amb0.describe() + ", after " + amb1.describe();
+                ambientRestoreThread(amb0);
+            }
             if (s.got.status != CALL_RETURNED)
                 heapAbandonOp(&c);
             else
@@ -522,7 +527,8 @@ void C18Exec::concurrent(const SchedConfig &scIn, C18Outcome &out) {
             if (s.roundChanged)
                 out.violations.push_back(mkViolation(
                     "I6-ambient-state", op, t, (int)i,
-                    "the call left the thread's floating-point rounding mode changed", ""));
+                    "the call left hidden per-thread / process state changed (floating-point control, signal mask or "
+                    "dispositions): " + s.ambWhat, ""));
             if (s.got.constChanged > 0)
                 out.violations.push_back(mkViolation(
                     "I2-const-input-write", op, t, (int)i,
